@@ -621,10 +621,11 @@ class Engine:
                     x2 = substitute(x, ldefs) if ldefs else x
                     if x2[0] == "call" and x2[1] in ("std::find_if",) and len(x2[3]) == 3 and y == x2[3][1]:
                         cands.append((x2, False))
-            elif f[0] == "false" and f[1][0] == "call" and f[1][1] == "std::any_of" and len(f[1][3]) == 3:
-                cands.append((f[1], False))
-            elif f[0] == "true" and f[1][0] == "call" and f[1][1] == "std::none_of" and len(f[1][3]) == 3:
-                cands.append((f[1], False))
+            elif f[0] in ("false", "true"):
+                # (the result may have been named by a local first: `const bool found = std::any_of(...); if (found) throw`)
+                c0 = substitute(f[1], ldefs) if ldefs and f[1][0] == "var" else f[1]
+                if c0[0] == "call" and len(c0[3]) == 3 and ((f[0] == "false" and c0[1] == "std::any_of") or (f[0] == "true" and c0[1] == "std::none_of")):
+                    cands.append((c0, False))
             for (c, _neg) in cands:
                 lam = c[3][2]
                 if lam[0] != "lambda":
@@ -639,6 +640,10 @@ class Engine:
                 if pt[0] == "op" and pt[1] in ("<", "<=", ">", ">=", "==", "!="):
                     g = negate(norm_cmp(pt[1], pt[2], pt[3]))
                     out.add(("ev", "each", ("ev", "passed", norm_cmp(g[0], g[1], g[2]))))
+                elif pt[0] == "call":
+                    out.add(("ev", "each", ("ev", "passed", ("false", pt))))
+                elif pt[0] == "un" and pt[1] == "!" and pt[2][0] == "call":
+                    out.add(("ev", "each", ("ev", "passed", ("true", pt[2]))))
         return out
 
     def _rewrite_through_definition(self, facts, v):
@@ -879,12 +884,70 @@ class Engine:
                     mp[at] = ("var", p["n"], p["d"])
         return mp
 
+    def _own_decls(self, fn):
+        c = getattr(fn, "_own_decl_ids", None)
+        if c is None:
+            c = {p["d"] for p in fn.params}
+            for nd in fn.nodes:
+                if nd["k"] == "DeclStmt":
+                    for d in nd.get("decls", []):
+                        if "d" in d:
+                            c.add(d["d"])
+            fn._own_decl_ids = c
+        return c
+
+    def _ghost_vars(self, fn, cal, rest):
+        """Caller variables the callee cannot touch, so that what is known about them stays true while the callee runs: plain
+        (non-reference, non-pointer) locals and parameters of the caller whose address is never taken and which are not handed
+        to this call by mutable reference. Only across calls within one translation unit, where declaration ids are unique, and
+        never for a variable the callee itself declares (recursion)."""
+        if fn.unit != cal.unit or fn.key == cal.key or fn.d.get("lambda") or cal.d.get("lambda"):
+            return set()
+        c = getattr(fn, "_ghost_candidates", None)
+        if c is None:
+            c = set()
+            for p in fn.params:
+                if not p.get("ref") and not p.get("ptr") and "*" not in (p.get("t") or "") and "&" not in (p.get("t") or ""):
+                    c.add(("var", p["n"], p["d"]))
+            for nd in fn.nodes:
+                if nd["k"] == "DeclStmt":
+                    for d in nd.get("decls", []):
+                        if "d" in d and not d.get("is_ref") and not d.get("static") and "*" not in (d.get("t") or ""):
+                            c.add(("var", d["n"], d["d"]))
+            for nd in fn.nodes:
+                if nd["k"] == "UnaryOperator" and nd.get("op") == "&":
+                    ks = fn.kids(nd["id"])
+                    r = self._root_var(fn.term(ks[0])) if ks else None
+                    c.discard(r)
+                if nd["k"] == "LambdaExpr" or nd["k"] == "lambda":
+                    pass
+            # anything captured by a lambda may be written by it
+            for nd in fn.nodes:
+                if nd["k"] == "LambdaExpr":
+                    for s0 in fn.subtree(nd["id"], into_lambdas=True):
+                        t0 = fn.term(s0) if fn.n(s0)["k"] == "DeclRefExpr" else None
+                        if t0 is not None:
+                            c.discard(t0)
+                    for cap in nd.get("captures", []) or []:
+                        c.discard(("var", cap.get("n"), cap.get("d")))
+            fn._ghost_candidates = c
+        own = self._own_decls(cal)
+        out = {v for v in c if v[2] not in own}
+        return out
+
     def _translate_in(self, fn, facts, cal, obj_t, rest):
         mp = self._param_map(fn, cal, obj_t, rest)
         on_this = obj_t is not None and (obj_t == ("this",) or (obj_t[0] == "un" and obj_t[2] == ("this",)))
         same_this = on_this or (obj_t is None and cal.cls and not cal.d.get("static") and fn.cls and False)
         out = set()
         pvars = {("var", p["n"], p["d"]) for p in cal.params}
+        ghosts = self._ghost_vars(fn, cal, rest)
+        if ghosts:
+            # handed to the callee by mutable reference / pointer: the callee may write it
+            for i, p in enumerate(cal.params):
+                if i < len(rest) and ((p.get("ref") and not p.get("const_ref")) or "*" in (p.get("t") or "")):
+                    ghosts.discard(self._root_var(fn.term(rest[i])))
+        allowed = pvars | ghosts
         for f in facts:
             if f[0] == "ev":
                 out.add(f)
@@ -900,7 +963,7 @@ class Engine:
             g = substitute(g, mp)
             ok = True
             for s in subterms(g):
-                if s[0] == "var" and s not in pvars:
+                if s[0] == "var" and s not in allowed:
                     ok = False
                     break
                 if s == ("this",) and not (on_this or (obj_t is not None and cal.cls)):
@@ -908,6 +971,26 @@ class Engine:
                     break
             if ok:
                 out.add(g)
+        # a by-value parameter *is* the argument expression, when that is plain arithmetic over things the callee cannot change
+        # before it looks (members of the shared object are re-judged by the callee's own kills)
+        for i, p in enumerate(cal.params):
+            if i >= len(rest) or p.get("ref") or "iw" not in p:
+                continue
+            at = fn.term(rest[i])
+            if at[0] not in ("op", "call", "cond") or (at[0] == "call" and at[1] not in ("std::min", "std::max")):
+                continue
+            good = True
+            for s in subterms(at):
+                if s[0] == "var" and s not in ghosts:
+                    good = False
+                elif s == ("this",) and not on_this:
+                    good = False
+                elif s[0] == "call" and s[1] not in ("std::min", "std::max"):
+                    good = False
+                elif s[0] in ("?", "lambda", "ctor", "opcall", "global", "idx", "un"):
+                    good = False
+            if good:
+                out.add(norm_cmp("==", ("var", p["n"], p["d"]), at))
         return frozenset(out)
 
     def _translate_out(self, fn, ex, cal, obj_t, rest):
